@@ -6,6 +6,8 @@
 //   observable   : <ok|error>|<snapshot>            when no fault fired
 //                  error|fault                      when a fault fired and the command failed
 //                  ok|fault-swallowed|<snapshot>    when a fault fired and the command reported success
+//   The real code runs on an afero MemMapFs behind two thin layers: strictFs (POSIX preconditions of
+//   Mkdir/Create that MemMapFs lacks) and faultFs (fails the k-th call).
 //   snapshot     : every path of the MemMapFs except the root, sorted, same entry syntax as the initial tree
 //                  (an entry whose parent is missing or is not a directory is prefixed with "!orphan:")
 package main
@@ -174,6 +176,37 @@ func (f *faultFile) Close() error {
 	return f.File.Close()
 }
 
+// strictFs adds to MemMapFs the preconditions a real file system enforces and MemMapFs does not:
+// Mkdir and Create need an existing parent directory, Create refuses to overwrite a directory.
+// (MemMapFs creates missing parents implicitly and lets Create replace a directory, orphaning its content.)
+type strictFs struct{ afero.Fs }
+
+func (s strictFs) parentIsDir(name string) error {
+	fi, err := s.Fs.Stat(path.Dir(path.Clean(name)))
+	if err != nil {
+		return &os.PathError{Op: "open", Path: name, Err: os.ErrNotExist}
+	}
+	if !fi.IsDir() {
+		return &os.PathError{Op: "open", Path: name, Err: errors.New("not a directory")}
+	}
+	return nil
+}
+func (s strictFs) Mkdir(name string, perm os.FileMode) error {
+	if err := s.parentIsDir(name); err != nil {
+		return err
+	}
+	return s.Fs.Mkdir(name, perm)
+}
+func (s strictFs) Create(name string) (afero.File, error) {
+	if err := s.parentIsDir(name); err != nil {
+		return nil, err
+	}
+	if fi, err := s.Fs.Stat(name); err == nil && fi.IsDir() {
+		return nil, &os.PathError{Op: "open", Path: name, Err: errors.New("is a directory")}
+	}
+	return s.Fs.Create(name)
+}
+
 func buildFs(tree string) (afero.Fs, error) {
 	fs := afero.NewMemMapFs()
 	if tree == "" {
@@ -245,6 +278,7 @@ func snapshot(fs afero.Fs) string {
 		}
 		out = append(out, e)
 	}
+	sort.Strings(out)
 	return strings.Join(out, ";")
 }
 
@@ -257,7 +291,7 @@ func runOut(p []string) string {
 	if err != nil {
 		return "harness-error:tree:" + err.Error()
 	}
-	ffs := &faultFs{base: base, faults: map[int]bool{}}
+	ffs := &faultFs{base: strictFs{base}, faults: map[int]bool{}}
 	if faultSpec != "" {
 		for _, s := range strings.Split(faultSpec, ",") {
 			k, err := strconv.Atoi(s)
@@ -282,9 +316,6 @@ func runOut(p []string) string {
 			return "error|fault"
 		}
 		return "ok|fault-swallowed|" + snapshot(base)
-	}
-	if os.Getenv("C19_SHOW_ERR") != "" && err != nil {
-		return outcome + "|" + snapshot(base) + "|" + err.Error()
 	}
 	return outcome + "|" + snapshot(base)
 }
